@@ -63,11 +63,12 @@ def gen_dag(rng, n, start=0, existing=(), dangling=("zz", "yy")):
 
 
 def gen(rng, tier):
-    base, names = gen_dag(rng, rng.randint(2, 9))
+    # a minority of long inputs (batch-size / buffer effects in the two-phase relation build)
+    base, names = gen_dag(rng, rng.randint(2, 9) if rng.random() > 0.03 else rng.choice([350, 700, 1100]))
     if rng.random() < 0.6:
         rng.shuffle(base)  # children before parents
     steps = [{"op": "create", "feats": base, "form": rng.choice(["path", "string", "list", "gen"])}]
-    start = 20
+    start = max(20, len(base) + 10)
     for _ in range(rng.choice([0, 0, 1, 1, 2, 3])):
         steps.append({"op": rng.choice(["reopen", "restart", "none", "none"])})
         k = rng.randint(1, 4)
